@@ -555,6 +555,7 @@ func (g *gen) codeList(n int) []any {
 func (g *gen) behC08() M {
 	steps := []any{g.startupX("u")}
 	rounds := 1 + g.rng.Intn(3)
+	many := false
 	for r := 0; r < rounds; r++ {
 		g.id++
 		id := g.id
@@ -563,6 +564,12 @@ func (g *gen) behC08() M {
 			np = 50 + g.rng.Intn(250)
 		}
 		typed := g.chance(0.5)
+		if r == 0 && g.chance(0.012) {
+			// as many parameters, each with a format code of its own, as the 16-bit counts of Bind allow
+			np = []int{32767, 32768, 40000, 65535}[g.rng.Intn(4)]
+			typed = false
+			many = true
+		}
 		oids := []any{}
 		if typed {
 			for i := 0; i < np; i++ {
@@ -604,6 +611,9 @@ func (g *gen) behC08() M {
 		params := []any{}
 		for i := 0; i < np; i++ {
 			switch {
+			case many && r == 0:
+				// (values without bytes: the message stays well under the size limit)
+				params = append(params, M{"null": g.chance(0.3), "cls": "empty"})
 			case g.chance(0.15):
 				params = append(params, M{"null": true})
 			case !typed && g.chance(0.15):
@@ -614,7 +624,14 @@ func (g *gen) behC08() M {
 				params = append(params, M{"null": false, "cls": "short"})
 			}
 		}
-		steps = append(steps, send(M{"t": "B", "portal": portal, "stmt": name, "pfmt": g.codeList(np), "params": params, "rfmt": g.codeList(nc)}))
+		pf := g.codeList(np)
+		if many && r == 0 {
+			pf = make([]any, np)
+			for i := range pf {
+				pf[i] = g.rng.Intn(2)
+			}
+		}
+		steps = append(steps, send(M{"t": "B", "portal": portal, "stmt": name, "pfmt": pf, "params": params, "rfmt": g.codeList(nc)}))
 		if g.chance(0.3) {
 			// the same portal bound again to the same statement (no Parse, no Close in between): the later Bind
 			// is the one that counts - its parameters and its result formats
@@ -623,7 +640,9 @@ func (g *gen) behC08() M {
 			}
 			again := []any{}
 			for i := 0; i < np; i++ {
-				if g.chance(0.2) {
+				if many && r == 0 {
+					again = append(again, M{"null": g.chance(0.5), "cls": "empty"})
+				} else if g.chance(0.2) {
 					again = append(again, M{"null": true})
 				} else {
 					again = append(again, M{"null": false, "cls": "short"})
@@ -664,6 +683,9 @@ func (g *gen) behC08() M {
 	}
 	cfg := baseCfg()
 	cfg["limit"] = 1 << 20
+	if many {
+		cfg["limit"] = 1 << 22
+	}
 	return M{"cfg": cfg, "steps": steps}
 }
 
